@@ -132,6 +132,10 @@ class CallsMixin:
             return args[0]
         if o is typing.cast:
             return args[1]
+        if o is super:
+            return self.b_super(args, kwargs, st)
+        if o is type and len(args) == 1:
+            return self.b_type(args, kwargs, st)
         if isinstance(o, type):
             return self.instantiate(o, args, kwargs, st)
         if hasattr(o, "__self__") and isinstance(getattr(o, "__self__"), type) and hasattr(o, "__func__"):
@@ -185,6 +189,18 @@ class CallsMixin:
             return self.log_call(st)
         if n == "str.format":
             return V.fresh(STR, "fmt")
+        if n == "str.join":
+            # TypeError unless every item is a str: decided from the static shape of the argument
+            a = args[0]
+            items = self.static_items(a)
+            if isinstance(a.shape, SeqS):
+                ok = isinstance(a.shape.elem, StrS)
+            elif items is not None:
+                ok = all(isinstance(x.shape, StrS) for x in items)
+            else:
+                raise OutOfSubset("str.join over " + repr(a.shape))
+            self.ctx.oblige("join-items-are-str", st, z3.BoolVal(ok), kind="safety")
+            return V.fresh(STR, "joined")
         if n == "file.read":
             self.ctx.assumptions.add("fp.read() returns the whole text of the file")
             return V.fresh(STR, "text")
@@ -232,8 +248,6 @@ class CallsMixin:
         if n == "dict.get" and isinstance(sv.shape, DictS):
             return self.call_builtin_method(BuiltinMethod(sv.d[0], "dict.get"), args, kwargs, st)
         if n == "dict.items":
-            if isinstance(sv.shape, MapS):
-                raise OutOfSubset("iteration over a map without insertion order")
             return V.vconc(ItemsObj(sv))
         if n == "dict.keys":
             return V.vconc(_Opaque("dict-keys"))
